@@ -276,6 +276,14 @@ def compare_with_model(run, suite, case, o, m, names):
             run.corr_fail(suite, case, e, {"obs": t["obs"], "Pass": bool(t["result"]["Pass"]), "P_value": float(t["result"]["P_value"]), "alpha": alpha}, f"test #{i} differs")
             ok = False
             break
+    # hypothesis of the end-to-end Lean theorems (CEProofs/Master.lean): every backward visiting order read from the stream is a
+    # permutation of the set it was drawn for (rng.permutation(S_init)); shuffle draws are permutations of range(N)
+    for arg, res in zip(o.get("args", []), o["perms"]):
+        want = list(range(arg)) if isinstance(arg, int) else sorted(arg)
+        if sorted(res) != want:
+            run.corr_fail(suite, case, "a permutation of " + repr(want[:8]), res[:8], "recorded generator draw is not a permutation of its argument")
+            ok = False
+            break
     if m["draws"] != len(o["perms"]):
         run.corr_fail(suite, case, m["draws"], len(o["perms"]), "number of generator draws differs")
         ok = False
